@@ -151,6 +151,45 @@ theorem fastParetoMask_exact_partial (S : Nat) (goals : List Goal) (data : List 
   fastParetoMask_exact (stdCfg S) goals data (by show (0 : Int) < 2 ^ S; exact Int.pow_pos (by decide))
     hcast hs hk
 
+/-! ### repaired configurations
+
+`stdCfg S wide sweepFirst` models the code after the repairs of the known findings:
+`wide` (float32-cast-collision: the effective dtype follows the data, the cast is exact) and `sweepFirst`
+(sweep2d-sentinel-hides-inf: `first_run or g_min_c1 < best_c1`).  H-cast resp. H-sweep then hold for every input. -/
+
+theorem Hcast_wide (S : Nat) (sf : Bool) (goals : List Goal) (data : List Row) :
+    Hcast (stdCfg S true sf) goals data = true := by
+  unfold Hcast
+  apply List.all_eq_true.mpr
+  intro gc _
+  cases hg : (gc.1 != Goal.min && gc.1 != Goal.max)
+  · simp only [Bool.false_or]
+    apply List.all_eq_true.mpr; intro a _
+    apply List.all_eq_true.mpr; intro b _
+    show (!EV.lt a b || EV.lt a b) = true
+    cases EV.lt a b <;> rfl
+  · rfl
+
+theorem Hsweep_first (S : Nat) (w : Bool) (goals : List Goal) (data : List Row) :
+    Hsweep (stdCfg S w true) goals data = true := by
+  unfold Hsweep
+  apply List.all_eq_true.mpr
+  intro G _
+  unfold HsweepG
+  split <;> rfl
+
+/-- with both repairs only H-key remains. -/
+theorem fastParetoMask_exact_repaired (S : Nat) (goals : List Goal) (data : List Row)
+    (hk : Hkey (stdCfg S true true) goals data = true) :
+    fastParetoMask (stdCfg S true true) goals data = paretoMaskSpec (stdCfg S true true).one goals data :=
+  fastParetoMask_exact (stdCfg S true true) goals data
+    (by show (0 : Int) < 2 ^ S; exact Int.pow_pos (by decide))
+    (Hcast_wide S true goals data) (Hsweep_first S true goals data) hk
+
+/-- the repaired sweep keeps `(0, inf)` (the witness of `sweep_sentinel_counterexample`). -/
+example : fastParetoMask (stdCfg 0 false true) [.min, .min] [[.fin 0, .pinf], [.fin 1, .fin 5]] = [true, true] := by
+  decide +kernel
+
 /-- `distinct=False`: the mask of the non-dominated rows. -/
 theorem fastParetoMask_exact_nodistinct (cfg : Cfg) (goals : List Goal) (data : List Row)
     (h1 : 0 < cfg.one) (hcast : Hcast cfg goals data = true) (hs : Hsweep cfg goals data = true)
